@@ -16,8 +16,9 @@ from .common import Check, MachineryFailure
 
 PAIRS_QUICK = [("small", "small", 3), ("free", "free", 3), ("free", "small", 3), ("call", "ctx", 2), ("tree", "call", 1),
                ("tree", "tree", 1), ("ctx", "tree", 1)]
-PAIRS_THOROUGH = PAIRS_QUICK + [("call", "call", 3), ("tree", "ctx", 3), ("call", "tree", 3)]
-TRIPLES = [("small", "free", "small", 2), ("call", "tree", "ctx", 1)]
+PAIRS_THOROUGH = [("small", "small", 99), ("free", "free", 4), ("free", "small", 4), ("call", "ctx", 2), ("tree", "call", 2),
+                  ("tree", "tree", 2), ("ctx", "tree", 2), ("call", "call", 2), ("free", "tree", 2), ("free", "call", 2)]
+TRIPLES = [("small", "free", "small", 2), ("call", "tree", "ctx", 1), ("free", "free", "free", 2)]
 
 
 def solo(names):
